@@ -16,8 +16,9 @@ import os
 import vlib
 import progs
 
-THEOREM_MODULES = ["Yarel.Props.C13", "Yarel.Props.C12", "Yarel.Props.C04", "Yarel.Props.StackGuardThm"]
-REQUIRED_THEOREMS = ["no_fault", "unhashable_rejected_unchanged", "verify_sound", "guard_free_equiv"]
+THEOREM_MODULES = ["Yarel.Props.C13", "Yarel.Props.C12", "Yarel.Props.C04", "Yarel.Props.StackGuardThm", "Yarel.Props.FnsTie.NoPanic"]
+REQUIRED_THEOREMS = ["no_fault", "unhashable_rejected_unchanged", "verify_sound", "guard_free_equiv", "vm_binary_op_never_panics", "op_total",
+                     "vm_equal_never_panics", "vm_logical_not_never_panics", "vm_negate_never_panics"]
 if os.path.exists(os.path.join(vlib.LEAN_DIR, "Yarel", "Props", "SitesInventory.lean")):
     THEOREM_MODULES.append("Yarel.Props.SitesInventory")
     REQUIRED_THEOREMS.append("sites_accounted_run_time")
